@@ -135,6 +135,7 @@ class H2Peer:
         self.ws: Dict[int, Any] = {}  # websocket peers per stream (extended CONNECT)
         self.server_settings_seen = False
         self.stalled: Optional[Tuple[int, int, int, int, bool]] = None
+        self.ws_pending: Dict[int, bytearray] = {}
         self.methods: Dict[int, str] = {}
         if upgrade_rid is not None:
             self.conn.initiate_upgrade_connection()
@@ -207,8 +208,14 @@ class H2Peer:
         if s == "ws":
             peer = self.ws.get(st["stream"])
             if peer is None:
-                raise AssertionError("websocket step on a stream without an accepted websocket")
+                self.sess.trace.log("c_note", text="websocket step skipped: stream has no accepted websocket",
+                                    stream=st["stream"], left=0)
+                self._cur_ws = None
+                self._npieces = 0
+                return []
+            self._cur_ws = peer
             return peer.step(st)
+        self._cur_ws = None
         if s != "h2":
             raise AssertionError("unknown step %r" % (st,))
         op = st["op"]
@@ -316,7 +323,11 @@ class H2Peer:
 
     def fed(self, index: int, n: int) -> None:
         """Called by the session after piece `index` of the current step has been fed."""
-        if index == self._npieces - 1:
+        if getattr(self, "_cur_ws", None) is not None:
+            self._cur_ws.fed(index, n)
+        elif self._npieces == 0:
+            self.sess.trace.log("c_send", upto=0, n=n, reqs=[], cerr=False)
+        elif index == self._npieces - 1:
             for rid, upd in self._after:
                 self._log_progress(rid, n, **upd)
             self._after = []
@@ -402,7 +413,7 @@ class H2Peer:
                         pass
             elif isinstance(event, h2.events.ResponseReceived):
                 sid = event.stream_id
-                if self.methods.get(sid) == "CONNECT" and sid in getattr(self, "ws_pending", {}):
+                if self.methods.get(sid) == "CONNECT":
                     status = dict(event.headers).get(b":status")
                     if status == b"200":
                         from .wsclient import WSPeer
@@ -410,8 +421,11 @@ class H2Peer:
                         peer = WSPeer(self.sess, self.rid_of.get(sid, "none"), None, h2=(self, sid))
                         peer.accept_response([[_s(n), _s(v), _s(n).lower()] for n, v in event.headers])
                         self.ws[sid] = peer
-        if self.stalled is not None and any(isinstance(e, h2.events.WindowUpdated) for e in events):
-            self._resume_upload()
+        if any(isinstance(e, h2.events.WindowUpdated) for e in events):
+            if self.stalled is not None:
+                self._resume_upload()
+            for sid in list(self.ws_pending):
+                self._pump_ws(sid)
         reply = self._flush()
         if reply and not self.sess.env.client_is_gone:
             self.sess.env.feed(reply)
@@ -437,9 +451,30 @@ class H2Peer:
             self._log_progress(rid, sent, body_add=sent, done=end and sent >= left)
 
     def ws_send(self, sid: int, data: bytes) -> bytes:
-        """Wrap websocket bytes into DATA frames of stream sid."""
-        self.conn.send_data(sid, data)
+        """Wrap websocket bytes into DATA frames of stream sid (respecting frame size and the
+        server's flow-control windows; the remainder follows when the server grants credit)."""
+        buf = self.ws_pending.setdefault(sid, bytearray())
+        buf.extend(data)
+        self._pump_ws(sid)
         return self._flush()
+
+    def _pump_ws(self, sid: int) -> None:
+        buf = self.ws_pending.get(sid)
+        while buf:
+            try:
+                room = min(self.conn.local_flow_control_window(sid), self.conn.max_outbound_frame_size)
+            except h2.exceptions.H2Error:
+                buf.clear()
+                return
+            n = min(room, len(buf))
+            if n <= 0:
+                return
+            try:
+                self.conn.send_data(sid, bytes(buf[:n]))
+            except h2.exceptions.H2Error:
+                buf.clear()
+                return
+            del buf[:n]
 
     def on_close(self) -> None:
         pass
